@@ -2,6 +2,11 @@
 """Write seeded/<id>/meta.json from confirm.json + notes.md (what it breaks, what it needs, what was run)."""
 import os, json, re, glob
 V = os.path.dirname(os.path.dirname(os.path.abspath(__file__)))
+# seeds our check MISSED at first; what was added to the check before the seed was re-confirmed (seeded/STRENGTHENED.json)
+try:
+    STRENGTHENED = json.load(open(os.path.join(V, "seeded", "STRENGTHENED.json")))
+except Exception:
+    STRENGTHENED = {}
 for d in sorted(glob.glob(os.path.join(V, "seeded", "C*-*"))):
     cf = os.path.join(d, "confirm.json")
     if not os.path.exists(cf):
@@ -27,5 +32,7 @@ for d in sorted(glob.glob(os.path.join(V, "seeded", "C*-*"))):
                       "detected": c.get("detected"), "exit": c.get("check_exit"), "lines": c.get("violation_lines", [])[:6],
                       "replays": c.get("replays", {})},
     }
+    if meta["id"] in STRENGTHENED:
+        meta["strengthened"] = STRENGTHENED[meta["id"]]
     json.dump(meta, open(os.path.join(d, "meta.json"), "w"), indent=1)
     print(meta["id"], "detected" if meta["our_check"]["detected"] else "MISSED", "|", title[:90])
